@@ -104,28 +104,31 @@ Fixpoint plain_exec (c : code) (env : list pyval) : outcome * list ev :=
       | OExn _ => let '(o2, l2) := plain_exec h env in (o2, l1 ++ l2)
       | _ => (o, l1)
       end
-  | Discard k | Force k => plain_exec k env
+  | Discard k | Force k | Enable _ k => plain_exec k env
   | RecordData _ _ k => plain_exec k env
   | PlayData _ k => plain_exec k (env ++ [VNone])
   end.
 
 (** ---- recording ---- *)
-(** the recorder fields a recording run reads and writes (:44-53): [live] = recording enabled and
-    _active_recording is not None (then _active_recording_parameters is not None either) *)
+(** the recorder fields a recording run reads and writes (:44-53): [active] = _active_recording is not None
+    (then _active_recording_parameters is not None either), [enabled] = recording_enabled *)
 Record rst := mk_rst {
-  live : bool;
+  active : bool;
+  enabled : bool;
   force : bool;                      (* _force_sample *)
   counter : list (str * N);          (* _invoke_counter *)
   icpt : bool                        (* thread-local currently_in_interception (single thread) *)
 }.
-Definition set_icpt (b : bool) (s : rst) : rst := mk_rst (live s) (force s) (counter s) b.
-Definition set_counter (c : list (str * N)) (s : rst) : rst := mk_rst (live s) (force s) c (icpt s).
-(** discard_recording (:106-114) = abort + _reset_active_recording (:165-173); a no-op when not live *)
+Definition in_rec (s : rst) : bool := enabled s && active s.                      (* in_recording_mode, :248-254 *)
+Definition set_icpt (b : bool) (s : rst) : rst := mk_rst (active s) (enabled s) (force s) (counter s) b.
+Definition set_counter (c : list (str * N)) (s : rst) : rst := mk_rst (active s) (enabled s) (force s) c (icpt s).
+Definition set_enabled (b : bool) (s : rst) : rst := mk_rst (active s) b (force s) (counter s) (icpt s).
+(** discard_recording (:106-114) = abort + _reset_active_recording (:165-173); a no-op without an active recording *)
 Definition discard (s : rst) : rst * list ev :=
-  if live s then (mk_rst false false [] (icpt s), [EAbort]) else (s, []).
+  if active s then (mk_rst false (enabled s) false [] (icpt s), [EAbort]) else (s, []).
 Definition do_force (ignore : bool) (s : rst) : rst :=
-  if live s && negb ignore then mk_rst (live s) true (counter s) (icpt s) else s.
-Definition should_intercept_rec (s : rst) : bool := negb (icpt s) && live s.      (* :296-302 *)
+  if active s && negb ignore then mk_rst (active s) (enabled s) true (counter s) (icpt s) else s.
+Definition should_intercept_rec (s : rst) : bool := negb (icpt s) && in_rec s.      (* :296-302 *)
 
 Definition prep_input (h : option ihandler) (v : pyval) (full : list pyval) (kw : list (str * pyval)) : option pyval :=
   match h with None => Some v | Some hh => ih_prep hh v full kw end.
@@ -156,12 +159,16 @@ Section Rec.
                 let s2 := set_icpt false s1 in
                 let pre := EBegin al a kw :: EBody al a kw :: l1 in
                 match o with
-                | OExn e => (o, s2, pre ++ (if live s2 then [EWrite key (DExn e)] else []) ++ [ECall al o])
+                | OExn e => (o, s2, pre ++ (if active s2 then [EWrite key (DExn e)] else []) ++ [ECall al o])
                 | OVal v =>
-                    if live s2 then
+                    if active s2 then
+                      (* the recording and its parameters are snapshotted before the handler runs (:850-853) *)
+                      let '(s3, lh) := if i_prep_discards cf then discard s2 else (s2, []) in
                       match prep_input (i_handler cf) v (full_args (i_static cf) a) kw with
-                      | None => let '(s3, la) := discard s2 in (o, s3, pre ++ la ++ [ECall al o])
-                      | Some rv => (o, s2, pre ++ [EWrite key (DVal rv)] ++ [ECall al o])
+                      | None => let '(s4, la) := discard s3 in (o, s4, pre ++ lh ++ la ++ [ECall al o])
+                      | Some rv =>
+                          (* written into the snapshotted recording; invisible if that one was just aborted *)
+                          (o, s3, pre ++ lh ++ (if active s3 then [EWrite key (DVal rv)] else []) ++ [ECall al o])
                       end
                     else (o, s2, pre ++ [ECall al o])
                 | OInt => (o, s2, pre ++ [ECall al o])
@@ -194,8 +201,8 @@ Section Rec.
                 let s2 := set_icpt false s1 in
                 let pre := EBegin al a kw :: ESent al a kw :: EWrite (okey_output al n) d :: EBody al a kw :: l1 in
                 match o with
-                | OExn e => (o, s2, pre ++ (if live s2 then [EWrite (okey_result al n) (DExn e)] else []) ++ [ECall al o])
-                | OVal v => (o, s2, pre ++ (if live s2 then [EWrite (okey_result al n) (DVal v)] else []) ++ [ECall al o])
+                | OExn e => (o, s2, pre ++ (if active s2 then [EWrite (okey_result al n) (DExn e)] else []) ++ [ECall al o])
+                | OVal v => (o, s2, pre ++ (if active s2 then [EWrite (okey_result al n) (DVal v)] else []) ++ [ECall al o])
                 | OInt => (o, s2, pre ++ [ECall al o])
                 end
             end
@@ -217,10 +224,11 @@ Section Rec.
         let '(s1, la) := discard s in
         let '(o, s2, l) := rec_exec k env s1 in (o, s2, la ++ l)
     | Force k => rec_exec k env (do_force (p_ignore P) s)
+    | Enable b k => rec_exec k env (set_enabled b s)
     | RecordData key e k =>
         (* record_data (:451-462): only in recording mode; not guarded by the interception flag *)
         let '(o, s2, l) := rec_exec k env s in
-        (o, s2, (if live s then [EWrite key (DData (eval env e))] else []) ++ l)
+        (o, s2, (if in_rec s then [EWrite key (DData (eval env e))] else []) ++ l)
     | PlayData _ k => rec_exec k (env ++ [VNone]) s           (* play_data outside playback returns None *)
     end.
 End Rec.
@@ -236,10 +244,14 @@ Fixpoint rlookup (k : str) (r : recording) : option datum :=
 Definition first_present (keys : list str) (r : recording) : option str :=
   find (fun k => match rlookup k r with Some _ => true | None => false end) keys.
 
-(** the only recorder field a replay reads and writes besides the playback outputs: _invoke_counter.
+(** the recorder fields a replay reads or writes besides the playback outputs: _invoke_counter, and
+    recording_enabled (written by enable/disable_recording, never read while replaying).
     (The interception flag is never set while replaying: _enter_interception_context is entered only by
     _execute_func_and_record_interception, which no playback path reaches, :652-659, :738-750.) *)
-Definition pst := list (str * N).
+Record pst := mk_pst {
+  pcounter : list (str * N);
+  penabled : bool
+}.
 
 (** what get_data(key) returns for a user read (play_data) *)
 Definition datum_value (d : datum) : option pyval :=
@@ -309,7 +321,8 @@ Section Play.
         let a := map (eval env) args in let kw := eval_kw env kwargs in
         let al := o_alias cf in
         let '(o, s', l) :=
-            let '(n, s0) := bump al s in
+            let '(n, cnt) := bump al (pcounter s) in
+            let s0 := mk_pst cnt (penabled s) in
             let lo := match (match o_handler cf with None => Some (DOut a kw) | Some h => option_map DData (oh_prep h a kw) end) with
                       | Some d => [EPbOut (okey_output al n) d]
                       | None => []                       (* a failing handler drops the entry silently (:210-220) *)
@@ -333,6 +346,7 @@ Section Play.
         | _ => (o, s1, l1)
         end
     | Discard k | Force k => play_exec k env s                  (* no active recording: no-ops *)
+    | Enable b k => play_exec k env (mk_pst (pcounter s) b)
     | RecordData _ _ k => play_exec k env s
     | PlayData key k =>
         match rlookup key R with
